@@ -9,6 +9,7 @@ package robase64
 
 //@ func Decode$1
 //@   props C18
+//@   binds v encoder
 //@   maypanic
 //@   track call.*
 //@   ensures [calls-the-wrapped-function-once|C18] count(call.ANY) == 1 && called(call.Encoding.DecodeString)
@@ -17,6 +18,7 @@ package robase64
 
 //@ func Encode$1
 //@   props C18
+//@   binds v encoder
 //@   maypanic
 //@   track call.*
 //@   ensures [calls-the-wrapped-function-once|C18] count(call.ANY) == 1 && called(call.Encoding.EncodeToString)
